@@ -170,13 +170,36 @@ func (s *vkStub) ServeDNS(ctx context.Context, ch *middleware.Chain) {
 	ch.Cancel()
 }
 
+// vkCurShapes[i] is the answer shape of declared view i in the configuration being built and judged
+// (nil = every view answers): 0 its own A answer, 1 no answers at all, 2 only an unparsable answer
+// line, 3 an answer for another name. A first-matching view WITHOUT a record for the question still
+// decides: the query goes downstream, later views never get a say.
+var vkCurShapes []int
+
+func vkShape(i int) int {
+	if i < len(vkCurShapes) {
+		return vkCurShapes[i]
+	}
+	return 0
+}
+
 func vkBuild(cfgIdx []int) *Views {
 	cfg := &config.Config{}
 	for i, pi := range cfgIdx {
+		var answers []string
+		switch vkShape(i) {
+		case 0:
+			answers = []string{fmt.Sprintf("www.example.org. 60 IN A 192.0.2.%d", i+1)}
+		case 1:
+		case 2:
+			answers = []string{"www.example.org. 60 IN A not-an-address"}
+		case 3:
+			answers = []string{fmt.Sprintf("other.example.org. 60 IN A 192.0.2.%d", i+1)}
+		}
 		cfg.Views = append(cfg.Views, config.ViewConfig{
 			Zone:     fmt.Sprintf("view%d", i),
 			Networks: vkPoolStrs(pi),
-			Answers:  []string{fmt.Sprintf("www.example.org. 60 IN A 192.0.2.%d", i+1)},
+			Answers:  answers,
 		})
 	}
 	return New(cfg)
@@ -184,12 +207,16 @@ func vkBuild(cfgIdx []int) *Views {
 
 type vkCase struct {
 	Views     []int  `json:"views"` // pool index per declared view
+	Shapes    []int  `json:"shapes,omitempty"`
 	Src       string `json:"src"`
 	Transport string `json:"transport"`
 	Entry     string `json:"entry"`
 }
 
 func (k vkCase) key() string {
+	if len(k.Shapes) > 0 {
+		return fmt.Sprintf("views:%v shapes=%v src=%s %s/%s", k.Views, k.Shapes, k.Src, k.Transport, k.Entry)
+	}
 	return fmt.Sprintf("views:%v src=%s %s/%s", k.Views, k.Src, k.Transport, k.Entry)
 }
 
@@ -257,6 +284,13 @@ func vkJudge(want int, replies []string, calls int) string {
 		}
 		return ""
 	}
+	if vkShape(want) != 0 {
+		// the first matching view has no record for this question: downstream answers, nobody else
+		if calls != 1 || len(replies) != 1 || replies[0] != vkStubAddr {
+			return fmt.Sprintf("first matching view in declaration order is #%d, which holds no record for the question: the query must go downstream, but the client got %v (downstream ran %d time(s))", want, replies, calls)
+		}
+		return ""
+	}
 	exp := fmt.Sprintf("192.0.2.%d", want+1)
 	if len(replies) != 1 || replies[0] != exp {
 		return fmt.Sprintf("first matching view in declaration order is #%d (answer %s) but the client got %v", want, exp, replies)
@@ -296,6 +330,7 @@ func TestVerifC17Views(t *testing.T) {
 			c.HarnessError("unknown replay source " + k.Src)
 			return
 		}
+		vkCurShapes = k.Shapes
 		r, n, e := vkRun(vkBuild(k.Views), src, k.Transport, k.Entry)
 		if e != "" {
 			c.HarnessError(e)
@@ -338,62 +373,76 @@ func TestVerifC17Views(t *testing.T) {
 			c.Cap("views: time budget hit")
 			break
 		}
-		v := vkBuild(cfgIdx)
+		variants := [][]int{nil}
+		if len(cfgIdx) <= 2 || c.Thorough() && len(cfgIdx) <= 3 {
+			for pos := range cfgIdx {
+				for shape := 1; shape <= 3; shape++ {
+					sh := make([]int, len(cfgIdx))
+					sh[pos] = shape
+					variants = append(variants, sh)
+				}
+			}
+		}
 		winners := map[int]bool{}
-		for _, src := range srcs {
-			for _, tr := range vkTransports {
-				want := vkWant(cfgIdx, src, tr)
-				for _, en := range vkEntries {
-					r, n, e := vkRun(v, src, tr, en)
-					if e != "" {
-						c.HarnessError(e)
-						return
-					}
-					evals++
-					if vkIsInternal(tr) {
-						// recorded, not judged here: unit "pipeline" judges internal
-						// sub-queries end to end through the real Queryer
-						if n == 1 && len(r) == 1 && r[0] == vkStubAddr {
-							c.Outcome("internal-sink-falls-through(not judged here):" + tr)
-						} else {
-							c.Outcome("internal-sink-answered-by-view(not judged here):" + tr)
-						}
-						continue
-					}
-					if msg := vkJudge(want, r, n); msg != "" {
-						k := vkCase{Views: cfgIdx, Src: src.name, Transport: tr, Entry: en}
-						r2, n2, _ := vkRun(vkBuild(cfgIdx), src, tr, en)
-						if vkJudge(want, r2, n2) == "" {
-							c.HarnessError("views violation did not reproduce: " + k.key())
+		for _, shapes := range variants {
+			vkCurShapes = shapes
+			v := vkBuild(cfgIdx)
+			for _, src := range srcs {
+				for _, tr := range vkTransports {
+					want := vkWant(cfgIdx, src, tr)
+					for _, en := range vkEntries {
+						r, n, e := vkRun(v, src, tr, en)
+						if e != "" {
+							c.HarnessError(e)
 							return
 						}
-						c.Violation(k.key(), k.key()+": "+msg, k)
-						if c.NumViolations() >= 3 {
-							c.Add("evaluations", evals)
-							return
-						}
-						continue
-					}
-					switch {
-					case want < 0:
-						c.Outcome("no-view:falls-through")
-					default:
-						c.Outcome(fmt.Sprintf("view#%d-answers", want))
-						// was a later view also matching? (first-match matters)
-						later := false
-						for j := want + 1; j < len(cfgIdx); j++ {
-							if vkPoolContains(cfgIdx[j], src.addr) {
-								later = true
+						evals++
+						if vkIsInternal(tr) {
+							// recorded, not judged here: unit "pipeline" judges internal
+							// sub-queries end to end through the real Queryer
+							if n == 1 && len(r) == 1 && r[0] == vkStubAddr {
+								c.Outcome("internal-sink-falls-through(not judged here):" + tr)
+							} else {
+								c.Outcome("internal-sink-answered-by-view(not judged here):" + tr)
 							}
+							continue
 						}
-						if later {
-							c.Outcome("first-of-several-matching")
+						if msg := vkJudge(want, r, n); msg != "" {
+							k := vkCase{Views: cfgIdx, Shapes: shapes, Src: src.name, Transport: tr, Entry: en}
+							r2, n2, _ := vkRun(vkBuild(cfgIdx), src, tr, en)
+							if vkJudge(want, r2, n2) == "" {
+								c.HarnessError("views violation did not reproduce: " + k.key())
+								return
+							}
+							c.Violation(k.key(), k.key()+": "+msg, k)
+							if c.NumViolations() >= 3 {
+								c.Add("evaluations", evals)
+								return
+							}
+							continue
 						}
-						winners[want] = true
+						switch {
+						case want < 0:
+							c.Outcome("no-view:falls-through")
+						default:
+							c.Outcome(fmt.Sprintf("view#%d-answers", want))
+							// was a later view also matching? (first-match matters)
+							later := false
+							for j := want + 1; j < len(cfgIdx); j++ {
+								if vkPoolContains(cfgIdx[j], src.addr) {
+									later = true
+								}
+							}
+							if later {
+								c.Outcome("first-of-several-matching")
+							}
+							winners[want] = true
+						}
 					}
 				}
 			}
 		}
+		vkCurShapes = nil
 		// non-trivial: at least two different views win for different sources
 		if len(winners) >= 2 {
 			c.DistinctStr("nontrivial", fmt.Sprintf("views|%v", cfgIdx))
